@@ -678,7 +678,11 @@ def gen_generic_family(rng):
     if kind == "attrs":
         src = src.replace("@attrs.define\nclass Box(Generic[T]):", "@attrs.define(slots=False)\nclass Box(Generic[T]):")
     src += f"{deco2}\nclass Two(Other[{arg2}], Box[{arg}]):\n    pass\n"
-    return {"kind": kind, "fields": fields, "sub_arg": arg, "src": src, "two_arg": arg2}
+    # a class that inherits from a SPECIALISED generic base and is generic in a parameter of its own: Mixed[X] must bind both
+    arg3 = rng.choice(["int", "Inner", "E", "str"])
+    wdef = "attrs.field(factory=list)" if kind == "attrs" else "dataclasses.field(default_factory=list)"
+    src += f"{deco}\nclass Mixed(Box[{arg}], Generic[U]):\n    w: List[U] = {wdef}\n".replace("@attrs.define\nclass Mixed", "@attrs.define(slots=False)\nclass Mixed")
+    return {"kind": kind, "fields": fields, "sub_arg": arg, "src": src, "two_arg": arg2, "mixed_arg": arg3}
 
 
 def generic_battery(v: Verdict, prop: str, n_families: int):
@@ -758,12 +762,12 @@ def generic_battery(v: Verdict, prop: str, n_families: int):
             get = (lambda r, nm: r[nm]) if is_td else getattr
             targets = [("Box", a) for a in rng.sample(sorted(args), 2)]
             if not is_td:
-                targets += [("Sub", fam["sub_arg"]), ("Leaf", fam["sub_arg"]), ("Two", fam["sub_arg"])]
+                targets += [("Sub", fam["sub_arg"]), ("Leaf", fam["sub_arg"]), ("Two", fam["sub_arg"]), ("Mixed", fam["sub_arg"])]
             convs = {dv: Converter(detailed_validation=dv) for dv in (True, False)}
             rng.shuffle(targets)
             for cname, aname in targets:
                 cl = getattr(mod, cname)
-                T = cl[args[aname]] if cname == "Box" else cl
+                T = cl[args[aname]] if cname == "Box" else (cl[args[fam["mixed_arg"]]] if cname == "Mixed" else cl)
                 hist["types"][cname] = hist["types"].get(cname, 0) + 1
                 kw = {"label": rng.choice(["l", "m"])}
                 for name, sh, _c in fam["fields"]:
@@ -774,6 +778,8 @@ def generic_battery(v: Verdict, prop: str, n_families: int):
                     kw["more"] = rng.choice(["m", "n"])
                 if cname == "Two":
                     kw["o"] = [val_of(fam["two_arg"]) for _ in range(rng.randint(0, 2))]
+                if cname == "Mixed":
+                    kw["w"] = [val_of(fam["mixed_arg"]) for _ in range(rng.randint(0, 2))]
                 if is_td:
                     for nm in fam["notrequired"]:
                         if rng.random() < 0.3:
@@ -788,6 +794,8 @@ def generic_battery(v: Verdict, prop: str, n_families: int):
                         exp[extra] = kw[extra]
                 if cname == "Two":
                     exp["o"] = [enc_of(fam["two_arg"], e) for e in kw["o"]]
+                if cname == "Mixed":
+                    exp["w"] = [enc_of(fam["mixed_arg"], e) for e in kw["w"]]
                 dv = rng.random() < 0.5
                 desc = {"battery": "GENERIC", "family_source": fam["src"], "type": repr(T), "value": repr(x), "detailed_validation": dv}
                 v.count(repr((fam["src"], repr(T), repr(x), dv)), True)
